@@ -135,12 +135,12 @@ func (c *Ctx) ArgFrom(fnName string, sel Sel, idx int, desc string, pred func(ss
 	}
 	for _, in := range ins {
 		ci, ok := in.(ssa.CallInstruction)
-		if !ok || idx >= len(ci.Common().Args) {
+		if !ok || idx >= len(BaselineArgs(ci.Common())) {
 			c.Undecided(rule, construct, "site is not a call with that many arguments")
 			return false
 		}
-		if !DependsOn(ci.Common().Args[idx], pred) {
-			c.Fail(rule, construct, InstrPos(in), fmt.Sprintf("argument `%s` does not derive from %s", Term(ci.Common().Args[idx]), desc))
+		if !DependsOn(BaselineArgs(ci.Common())[idx], pred) {
+			c.Fail(rule, construct, InstrPos(in), fmt.Sprintf("argument `%s` does not derive from %s", Term(BaselineArgs(ci.Common())[idx]), desc))
 			return false
 		}
 	}
@@ -158,12 +158,12 @@ func (c *Ctx) ArgNotFrom(fnName string, sel Sel, idx int, desc string, pred func
 	}
 	for _, in := range ins {
 		ci, ok := in.(ssa.CallInstruction)
-		if !ok || idx >= len(ci.Common().Args) {
+		if !ok || idx >= len(BaselineArgs(ci.Common())) {
 			c.Undecided(rule, construct, "site is not a call with that many arguments")
 			return false
 		}
-		if DependsOn(ci.Common().Args[idx], pred) {
-			c.Fail(rule, construct, InstrPos(in), fmt.Sprintf("argument `%s` derives from %s", Term(ci.Common().Args[idx]), desc))
+		if DependsOn(BaselineArgs(ci.Common())[idx], pred) {
+			c.Fail(rule, construct, InstrPos(in), fmt.Sprintf("argument `%s` derives from %s", Term(BaselineArgs(ci.Common())[idx]), desc))
 			return false
 		}
 	}
